@@ -21,7 +21,7 @@ RULE = ("full in-memory stack (real Client -> serializer -> wire -> server Conne
         "submits). non-trivial = a write that reached a driver; distinct = hash(deployment, target, values, fragmentation)")
 ASSUMPTIONS = ["permission (ro) is not enforced by indipy and not demanded", "only properties the client can see are written",
                "for OneOfMany/AtMostOne multi-switch writes any application order of the named switches is accepted"]
-REQUIRED_EVENTS = ["sessions", "writes", "snapshots_compared", "targets_verified", "client_mirror_checks",
+REQUIRED_EVENTS = ["sessions", "writes", "snapshots_compared", "targets_verified", "client_mirror_checks", "stale_pending_probes", "noop_write_probes",
                    "writes_Text", "writes_Number", "writes_Switch", "writes_BLOB", "multi_element_writes"]
 
 MODES = ["whole", "1024", "1", "random", "small"]
@@ -233,6 +233,22 @@ async def session(ctx, case):
                 if D.element_of(drv, ga, va, eattr).value != "device side":
                     ctx.violate("second-submit-resent-old-value", f"{d}.{p}.{first} was overwritten by a later submit that did not name it", wcase)
                     return nw
+                # the same with a write of the value the client ALREADY shows (a no-op write must not linger either)
+                shown = vec.get_element(first).value
+                if shown:
+                    vec.get_element(first).value = shown
+                    vec.submit()
+                    await sess.quiesce()
+                    D.element_of(drv, ga, va, eattr).value = "device side 2"
+                    await sess.quiesce()
+                    vec.get_element(other).value = "third write"
+                    vec.submit()
+                    await sess.quiesce()
+                    ctx.count("noop_write_probes")
+                    if D.element_of(drv, ga, va, eattr).value != "device side 2":
+                        ctx.violate("noop-write-lingered-and-was-resent", f"{d}.{p}.{first}: a write of the value already shown was re-sent by a later submit "
+                                                                       f"and overwrote the device's newer value", wcase)
+                        return nw
         await sess.close()
         return nw
     finally:
@@ -247,7 +263,7 @@ def one_case(ctx, case):
 
 
 def run(ctx):
-    n = 250 if not ctx.thorough else 30000
+    n = 200 if not ctx.thorough else 30000
     for i in range(n):
         if not ctx.mine(i):
             continue
